@@ -4060,7 +4060,7 @@ fn exact_div<N>(n: N, rhs: N) -> Option<N>
 where
     N: std::ops::Div<Output = N> + std::ops::Rem<Output = N> + std::cmp::PartialEq + Copy + Default,
 {
-    (n % rhs == N::default()).then_some(n / rhs)
+    (rhs != N::default() && n % rhs == N::default()).then(|| n / rhs)
 }
 
 /// Verification accessors and wrappers (only with `--cfg flac_codec_verif`)
